@@ -64,6 +64,7 @@ func realLinks(c *vf.Ctx, rng *rand.Rand, burst int) (events []any, desc map[str
 	// the burst frames, by their payload
 	loopID := map[string]int{}
 	loopOrig := map[int][]byte{}
+	arrived := map[int]bool{} // burst / sized frames that reached C
 	stop := make(chan struct{})
 	var pumps sync.WaitGroup
 	for _, nd := range nodes {
@@ -82,6 +83,9 @@ func realLinks(c *vf.Ctx, rng *rand.Rand, burst int) (events []any, desc map[str
 							if id, ok := loopID[key]; ok {
 								events = append(events, map[string]any{"ev": "cross", "id": id, "from": byIP[f.RecvLink().Peer().String()], "to": num[nd],
 									"ttl": int(raw[1]), "same": bytes.Equal(masked(raw), masked(loopOrig[id])), "known": true})
+								if nd == cc {
+									arrived[id] = true
+								}
 							}
 							mu.Unlock()
 						}
@@ -184,6 +188,55 @@ func realLinks(c *vf.Ctx, rng *rand.Rand, burst int) (events []any, desc map[str
 	toA := walk([]*world.Node{cc, b, r, a}, []m.SwitchLabel{lCB, lBR, lRA}, []m.SwitchLabel{lBC, lRB, lAR})
 	toS := walk([]*world.Node{a, r, sn}, []m.SwitchLabel{lAR, rs.LinkA.SwitchLabel()}, []m.SwitchLabel{lRA, rs.LinkB.SwitchLabel()})
 	suspended.Store(true)
+	// one frame of every size around the buffer sizes of the link reader, one after the other on the quiet network:
+	// each is handed to C
+	sized, lost := 0, 0
+	for _, around := range []int{600, 1600} {
+		for n := around - 220; n <= around+20; n++ {
+			sized++
+			id := 500000 + sized
+			payload := make([]byte, n)
+			rng.Read(payload)
+			copy(payload, fmt.Sprintf("9%07d", sized))
+			ff, err := a.Builder.NewFrameV1(a.ID.IP, cc.ID.IP, frame.RouterPing, toC.ForwardBlock, payload, nil)
+			if err != nil {
+				c.Broken("real links: frame of %d bytes: %v", n, err)
+				return nil, desc
+			}
+			label, err := m.NextRotateSwitchBlock(ff.SwitchBlock(), 0)
+			if err != nil {
+				c.Broken("real links: rotate: %v", err)
+				return nil, desc
+			}
+			raw, _ := ff.FrameDataWithMargins(0, 0)
+			mu.Lock()
+			loopID[string(payload[:8])] = id
+			loopOrig[id] = append([]byte(nil), raw...)
+			events = append(events, map[string]any{"ev": "originate", "id": id, "src": 1, "dst": 4, "ttl": int(raw[1]), "conv": true})
+			mu.Unlock()
+			_ = a.Sw.ForwardByLabel(ff, label)
+			c.Eval(1)
+			ok := false
+			for deadline := time.Now().Add(time.Second); time.Now().Before(deadline) && !ok; {
+				mu.Lock()
+				ok = arrived[id]
+				mu.Unlock()
+				if !ok {
+					time.Sleep(100 * time.Microsecond)
+				}
+			}
+			if !ok {
+				lost++
+			}
+			mu.Lock()
+			events = append(events, map[string]any{"ev": "end", "id": id, "replied": ok, "phase": fmt.Sprintf("a frame with %d bytes of payload on the quiet network", n)})
+			mu.Unlock()
+			if lost > 3 {
+				break
+			}
+		}
+	}
+	desc["sized_frames"], desc["sized_frames_lost"] = sized, lost
 	injected := make(chan struct{})
 	var inj sync.WaitGroup
 	for side, from := range []*world.Node{a, cc, a} {
